@@ -108,18 +108,28 @@ def shape_eval(F, b, shape, variants, stack=()):
     return res
 
 
-def case_env(F, b, tb, vname, variants):
+def case_env(F, b, tb, vname, variants, target=None):
     """Valuation that fixes the case of self (param 1) to `vname` for body b: the discriminant of case(self) and every call g(self) of a
     crate bool predicate that is determined by self's case (is_compressed(self), is_obscured(self), ..). Returns (env, number of atoms)."""
     shape = (vname,) if vname != 'Node' else ('Node', 'Leaf')
+    if target is None:
+        target = P1
+    elif not callable(target):
+        _t = target
+        target = None
     env = {}
+    def is_target(x):
+        x = strip_sites(detry(x))
+        while x[0] == 'call' and call_name(x) in ('clone', 'deref', 'borrow', 'as_ref') and len(x[2]) == 1:
+            x = strip_sites(detry(x[2][0]))
+        return x == P1 if target is P1 else (target(x) if target is not None else x == _t)
     for x in find_terms(b, tb, lambda x: x[0] == 'discr' or (x[0] == 'call' and len(x[2]) == 1)):
         if x[0] == 'discr':
             c = m_call(x[1], name='case', self_suffix='Envelope')
-            if c is not None and strip_sites(c[0]) == P1:
+            if c is not None and is_target(c[0]):
                 env[x] = variants.index(vname)
             continue
-        if strip_sites(detry(x[2][0])) != P1:
+        if not is_target(x[2][0]):
             continue
         c = callee_of(x)
         g = F.by_hash.get(c.best_hash) if c is not None else None
